@@ -158,7 +158,7 @@ func brokerPayload(tag string) []byte {
 	if tag == "M" {
 		n = 16384 - 8192 - 16
 	}
-	if tag == "L125" {
+	if tag == "T125" {
 		n = 125 // with a one-byte topic at QoS 0 the PUBLISH has a remaining length of exactly 128: two length bytes
 	}
 	if tag == "MID" {
@@ -324,7 +324,7 @@ func (c *eofJoinConn) Read(b []byte) (int, error) {
 	return n, err
 }
 
-var payloadTags = []string{"x", "y", "z", "w", "w1", "w2", "w3", "B", "B2", "M", "p1", "p2", "MID", "HUGE", "L125"}
+var payloadTags = []string{"x", "y", "z", "w", "w1", "w2", "w3", "B", "B2", "M", "p1", "p2", "MID", "HUGE", "T125"}
 
 func init() {
 	// "m<id>": one payload per packet identifier (configurations with many exchanges open at once)
